@@ -719,7 +719,11 @@ func c05Units(thorough bool) []*explore.Unit {
 			if codec != nil {
 				name += "|snappy"
 			}
-			u := &explore.Unit{Name: name, Bound: 2, Opt: vrt.Options{MaxSteps: 20000}}
+			cb := 2
+			if thorough && len(cc.direct)+cc.batch <= 2 {
+				cb = 3
+			}
+			u := &explore.Unit{Name: name, Bound: cb, Opt: vrt.Options{MaxSteps: 20000}}
 			u.Body = c05Send(codec, 2, func(r *rig) ([]hrpc.Call, []hrpc.Call) {
 				var d, b []hrpc.Call
 				for _, s := range cc.direct {
